@@ -32,6 +32,8 @@ def run(rep, tier):
     delegation(rep, F)
     bounding_rect(rep, F)
     extremes(rep, F)
+    lines_rule(rep, F)
+    map_rule(rep, F)
 
 
 # ------------------------------------------------------------------ sequence normaliser
@@ -400,3 +402,176 @@ def extremes(rep, F):
         rep.bad("R19.7", "rows", "only %d two-item rows" % n, where=fn.loc())
     else:
         rep.ok("R19.7", "records[%d two-item rows]" % n)
+
+
+# ------------------------------------------------------------------------------------------------ R19.3 / R19.4
+def _rets(F, fn, **kw):
+    return [p for p in opaque(F, loop_bound=1, **kw).run(fn) if p.kind == "ret"]
+
+
+def lines_rule(rep, F):
+    """R19.3: lines_iter(g) = for each linear component of g in traversal order, its consecutive coordinate pairs."""
+    from ..symex import bare
+    rep.rule("R19.3", "lines_iter: Line -> itself; LineString -> windows(2) as Line(w[0], w[1]); Polygon -> exterior then every interior; Multi* -> every member in order; "
+                      "Rect / Triangle -> the closed corner walk; the helper iterators map every inner item")
+    LI = "geo::algorithm::lines_iter::LinesIter"
+    want = {
+        "line::Line": r"^copied\(once\(a1\)\)$",
+        "line_string::LineString": r"^new\(a1\)$",
+        "multi_line_string::MultiLineString": r"^flatten\(MapLinesIter::MapLinesIter\(iter\(a1\.0\)\)\)$",
+        "polygon::Polygon": r"^chain\(lines_iter\(exterior\(a1\)\), flatten\(MapLinesIter::MapLinesIter\(iter\(interiors\(a1\)\)\)\)\)$",
+        "multi_polygon::MultiPolygon": r"^flatten\(MapLinesIter::MapLinesIter\(iter\(a1\.0\)\)\)$",
+        "rect::Rect": r"^into_iter\(to_lines\(a1\)\)$",
+        "triangle::Triangle": r"^into_iter\(to_lines\(a1\)\)$",
+    }
+    n = 0
+    for ty, pat in want.items():
+        try:
+            fn = F.impl_method(LI, r"^%s%s<T>$" % (GT, ty), None, "lines_iter", crates=("geo",))
+            ps = _rets(F, fn)
+        except (KeyError, Unanalysable) as e:
+            rep.bad("R19.3", "lines_iter:%s:anchor" % ty, str(e))
+            continue
+        n += 1
+        got = [bare(p.ret) for p in ps]
+        if len(got) == 1 and re.match(pat, got[0]):
+            rep.ok("R19.3", "lines_iter:" + ty.split("::")[-1])
+        else:
+            rep.bad("R19.3", "lines_iter:" + ty.split("::")[-1], "lines_iter is %s: not the component-by-component traversal (pattern %s)" % (got[:2], pat), where=fn.loc())
+    rep.floor("R19.3", "LinesIter impls", n, 7)
+    # helpers
+    try:
+        fn = F.one(r"lines_iter::LineStringIter::<'a, T>::new$", crates=("geo",))
+        got = [bare(p.ret) for p in _rets(F, fn)]
+        if got == ["LineStringIter::LineStringIter(windows(a1.0, 2))"]:
+            rep.ok("R19.3", "LineStringIter::new=windows(2)")
+        else:
+            rep.bad("R19.3", "LineStringIter::new", "LineStringIter::new is %s, expected windows(2) over the coordinates" % got[:1], where=fn.loc())
+        found = 0
+        for g in F.lib_fns(("geo",)):
+            if re.search(r"lines_iter::LineStringIter<.*Iterator>::next$|lines_iter::LineStringIter<.*DoubleEndedIterator>::next_back$", g.path):
+                found += 1
+                rr = [bare(p.ret) for p in _rets(F, g)]
+                cl = [[bare(q.ret) for q in _rets(F, c)] for c in F.closures_of(g)]
+                flat = [x for c in cl for x in c]
+                line_ok = any(re.match(r"^new\(a2\[0\], a2\[1\]\)$|^new\(\*?a2\[0\], \*?a2\[1\]\)$|^new\(get_unchecked\(a2, 0\), get_unchecked\(a2, 1\)\)$", x) for x in flat) or any("new(" in x and "[0]" in x and "[1]" in x and x.index("[0]") < x.index("[1]") for x in rr + flat)
+                if line_ok:
+                    rep.ok("R19.3", "LineStringIter::%s" % g.path.rsplit("::", 1)[-1])
+                else:
+                    rep.bad("R19.3", "LineStringIter::%s" % g.path.rsplit("::", 1)[-1], "a window w is turned into %s, expected Line::new(w[0], w[1])" % (flat or rr)[:2], where=g.loc())
+            if re.search(r"lines_iter::MapLinesIter<.*Iterator>::next$", g.path):
+                found += 1
+                cl = [bare(q.ret) for c in F.closures_of(g) for q in _rets(F, c)]
+                rr = [bare(p.ret) for p in _rets(F, g)]
+                if cl == ["lines_iter(a2)"] or any("lines_iter((next(a1.0) as Some).0)" in x for x in rr):
+                    rep.ok("R19.3", "MapLinesIter::next")
+                else:
+                    rep.bad("R19.3", "MapLinesIter::next", "MapLinesIter maps an item to %s, expected item.lines_iter()" % (cl or rr)[:2], where=g.loc())
+        if found < 2:
+            rep.bad("R19.3", "helpers:floor", "helper iterator impls found: %d" % found)
+        fn = F.one(r"^geo_types::geometry::triangle::Triangle::<T>::to_lines$", crates=("geo_types",))
+        got = [bare(p.ret) for p in _rets(F, fn)]
+        if got == ["[new(a1.0, a1.1), new(a1.1, a1.2), new(a1.2, a1.0)]"]:
+            rep.ok("R19.3", "Triangle::to_lines")
+        else:
+            rep.bad("R19.3", "Triangle::to_lines", "to_lines is %s" % got[:1], where=fn.loc())
+        fn = F.one(r"^geo_types::geometry::rect::Rect::<T>::to_lines$", crates=("geo_types",))
+        ps = _rets(F, fn)
+        r = ps[0].ret if len(ps) == 1 else None
+        okr = False
+        if r is not None and r[0] == "array" and len(r[1]) == 4:
+            ends = []
+            for ln in r[1]:
+                b = bare(ln)
+                m = re.match(r"^new\(Coord::Coord\(a1\.(min|max)\.x, a1\.(min|max)\.y\), Coord::Coord\(a1\.(min|max)\.x, a1\.(min|max)\.y\)\)$", b)
+                ends.append(m.groups() if m else None)
+            if all(ends):
+                # a closed walk over the four distinct corners, one axis changing per step
+                okr = all(ends[i][2:] == ends[(i + 1) % 4][:2] for i in range(4)) and len({e[:2] for e in ends}) == 4 and \
+                    all((e[0] != e[2]) != (e[1] != e[3]) for e in ends)
+        if okr:
+            rep.ok("R19.3", "Rect::to_lines")
+        else:
+            rep.bad("R19.3", "Rect::to_lines", "to_lines is not a closed walk over the four corners with one axis changing per step", where=fn.loc())
+    except (KeyError, Unanalysable, IndexError) as e:
+        rep.bad("R19.3", "helpers:anchor", str(e))
+
+
+def map_rule(rep, F):
+    """R19.4: map_coords rebuilds the same shape from f applied to the parts in traversal order; try_map_coords agrees with it on its Ok path and
+    propagates the first Err; the simple in-place variants store f(part) into the same part."""
+    from ..symex import bare
+    rep.rule("R19.4", "map_coords: same constructor, parts mapped in traversal order (Point f(c); Line start,end; LineString all points; Polygon exterior then interiors; Multi*/collection every "
+                      "member; Triangle 0,1,2; Rect min,max); try_map_coords = the same term under Ok with Err propagated; members are mapped with the same f")
+    MC = "geo::algorithm::map_coords::MapCoords"
+    want = {
+        "point::Point": r"^Point::Point\(call\(a2, \(a1\.0\)\)\)$",
+        "line::Line": r"^new\(map_coords\(start_point\(a1\), a2\)\.0, map_coords\(end_point\(a1\), a2\)\.0\)$",
+        "line_string::LineString": r"^from\(collect\(map\(points\(a1\), closure\[a2\]\)\)\)$",
+        "polygon::Polygon": r"^new\(map_coords\(exterior\(a1\), a2\), collect\(map\(iter\(interiors\(a1\)\), closure\[a2\]\)\)\)$",
+        "multi_point::MultiPoint": r"^new\(collect\(map\(iter\(a1(\.0)?\), closure\[a2\]\)\)\)$",
+        "multi_line_string::MultiLineString": r"^new\(collect\(map\(iter\(a1(\.0)?\), closure\[a2\]\)\)\)$",
+        "multi_polygon::MultiPolygon": r"^new\(collect\(map\(iter\(a1(\.0)?\), closure\[a2\]\)\)\)$",
+        "geometry_collection::GeometryCollection": r"^new_from\(collect\(map\(iter\(a1(\.0)?\), closure\[a2\]\)\)\)$",
+        "rect::Rect": r"^new\(call\(a2, \(min\(a1\)\)\), call\(a2, \(max\(a1\)\)\)\)$",
+        "triangle::Triangle": r"^new\(call\(a2, \(a1\.0\)\), call\(a2, \(a1\.1\)\), call\(a2, \(a1\.2\)\)\)$",
+    }
+
+    def untry(s):
+        prev = None
+        while prev != s:
+            prev = s
+            s = re.sub(r"\(((?:[^()]|\((?:[^()]|\((?:[^()]|\((?:[^()]|\([^()]*\))*\))*\))*\))*) as Ok\)\.0", r"\1", s)
+        return s.replace("try_map_coords(", "map_coords(")
+    n = 0
+    for ty, pat in want.items():
+        name = ty.split("::")[-1]
+        try:
+            fn = F.impl_method(MC, r"^%s%s<T>$" % (GT, ty), None, "map_coords", crates=("geo",))
+            ps = _rets(F, fn)
+            ft = F.impl_method(MC, r"^%s%s<T>$" % (GT, ty), None, "try_map_coords", crates=("geo",))
+            pt = _rets(F, ft)
+        except (KeyError, Unanalysable) as e:
+            rep.bad("R19.4", "map_coords:%s:anchor" % name, str(e))
+            continue
+        n += 1
+        got = [bare(p.ret) for p in ps]
+        cls = [bare(q.ret) for c in F.closures_of(fn) for q in _rets(F, c)]
+        if len(got) == 1 and re.match(pat, got[0]) and all(x == "map_coords(a2, a1.0)" for x in cls):
+            rep.ok("R19.4", "map_coords:" + name)
+        else:
+            rep.bad("R19.4", "map_coords:" + name, "map_coords is %s (member closure %s): not the shape-preserving rebuild in traversal order" % (got[:2], cls[:1]), where=fn.loc())
+            continue
+        oks = [bare(p.ret) for p in pt if bare(p.ret).startswith("Result::Ok(")]
+        errs = [bare(p.ret) for p in pt if bare(p.ret).startswith("Result::Err(")]
+        other = [bare(p.ret) for p in pt if not bare(p.ret).startswith("Result::")]
+        tcls = [bare(q.ret) for c in F.closures_of(ft) for q in _rets(F, c)]
+        if len(oks) == 1 and untry(oks[0]).replace("iter(a1.0)", "iter(a1)") == "Result::Ok(%s)" % got[0].replace("iter(a1.0)", "iter(a1)") and not other and errs and all(x == "try_map_coords(a2, a1.0)" for x in tcls):
+            rep.ok("R19.4", "try_map_coords:" + name)
+        else:
+            rep.bad("R19.4", "try_map_coords:" + name, "the Ok result of try_map_coords is %s, which is not map_coords' result %s with every step made fallible%s" % (
+                [untry(x)[:120] for x in oks[:1]], got[0][:120], "; no Err exit" if not errs else ""), where=ft.loc())
+    rep.floor("R19.4", "MapCoords impls", n, 10)
+    # in place, the loop-free types: the stored value of each part is f(that part)
+    MI = "geo::algorithm::map_coords::MapCoordsInPlace"
+    parts = {"point::Point": ["0"], "line::Line": ["start", "end"], "triangle::Triangle": ["0", "1", "2"]}
+    for ty, fields in parts.items():
+        name = ty.split("::")[-1]
+        try:
+            fn = F.impl_method(MI, r"^%s%s<T>$" % (GT, ty), None, "map_coords_in_place", crates=("geo",))
+            ex = opaque(F, loop_bound=1)
+            ps = [p for p in ex.run(fn) if p.kind == "ret"]
+            good = len(ps) == 1
+            if good:
+                st = ps[0].st
+                base = st.mem.get(("S", ("arg", 1)))
+                val = bare(ex.canon(st, base)) if base is not None else ""
+                for f_ in fields:
+                    if "call(a2, (a1.%s))" % f_ not in val:
+                        good = False
+            if good:
+                rep.ok("R19.4", "map_coords_in_place:" + name)
+            else:
+                rep.bad("R19.4", "map_coords_in_place:" + name, "after map_coords_in_place the value is %s; expected every part replaced by f(that part)" % (val[:160] if ps else "?"), where=fn.loc())
+        except (KeyError, Unanalysable) as e:
+            rep.bad("R19.4", "map_coords_in_place:%s:anchor" % name, str(e))
